@@ -109,6 +109,12 @@ def gen_cases(tier: str, seed: int) -> list[dict]:
     for nk in (2, 3, 4):
         for w in (0, 2):
             cases.append({"payload": "small", "nkeys": nk, "workers": w, "fp": {"kind": "same_process"}})
+    # a sequential run interrupted (KeyboardInterrupt / an error) at a line of the save function or of the load-or-run step,
+    # in a process that lives on and runs again (an interrupted notebook cell that is executed again)
+    for func, lines in (("save", lines_sv), ("load_or_run", lines_lr)):
+        for ln in lines:
+            for hit in ((2,) if tier == "quick" else (1, 2, 3)):
+                cases.append({"payload": "small", "nkeys": 3, "workers": 0, "fp": {"kind": "interrupt", "func": func, "line": ln, "hit": hit, "exc": "KeyboardInterrupt" if (ln + hit) % 2 else "OSError"}})
     # results that are false in a boolean context (None, 0, "", [], False, 0.0, {}) are results
     for w in (0, 2):
         cases.append({"payload": "falsy", "nkeys": 8, "workers": w, "fp": {"kind": "none"}})
@@ -244,6 +250,8 @@ def run_case(case: dict) -> dict:
             return _same_process_history(case, ident, root, cdir, expected, counters)
         if fp["kind"] == "concurrent":
             return _concurrent_runs(case, ident, root, cdir, counters)
+        if fp["kind"] == "interrupt":
+            return _interrupted_then_rerun(case, ident, root, cdir, expected, counters)
         os.environ["VERIF_CALLLOG"] = calllog
 
         # ---- run 1: caching run with the failpoint armed -------------------------
@@ -457,6 +465,56 @@ def _same_process_history(case: dict, ident: dict, root: str, cdir: str, expecte
                 viols.append(core.viol(f"cached run differs from a cache-free run of the same computation [{step}]", None, case=ident, step=step, got=str(got)[:300], expected=str(want)[:300]))
                 break
     return core.result(sig=core.sha(ident), nontrivial=True, violations=viols[:2], counters=counters)
+
+
+def _interrupted_then_rerun(case: dict, ident: dict, root: str, cdir: str, expected: list, counters: dict) -> dict:
+    """A sequential caching run is interrupted by an exception raised at one line; the SAME process runs it again (and a
+    third time). Both later runs must complete and equal a cache-free run; the third must not compute anything."""
+    import mxlpy.parallel as par
+
+    fp = case["fp"]
+    nkeys = case["nkeys"]
+    calllog = os.path.join(root, "calls.log")
+
+    def history() -> None:
+        target = par._load_or_run if fp["func"] == "load_or_run" else _save_fn()  # noqa: SLF001
+        exc = KeyboardInterrupt if fp["exc"] == "KeyboardInterrupt" else OSError
+        state = failpoints.arm_line_raise(target, fp["line"], fp["hit"], exc)
+        out: dict = {}
+        try:
+            run_workload("small", nkeys, cdir, 0)
+            out["interrupted"] = False
+        except exc:
+            out["interrupted"] = True
+        state["armed"] = False  # only the first run is interrupted
+        out["raised"] = state["raised"]
+        out["left_behind"] = sorted(os.listdir(cdir)) if os.path.isdir(cdir) else []
+        out["pid_in_names"] = str(os.getpid())
+        out["rerun"] = run_workload("small", nkeys, cdir, 0)
+        os.environ["VERIF_CALLLOG"] = calllog
+        out["third"] = run_workload("small", nkeys, cdir, 0)
+        with open(os.path.join(root, "hist.pkl"), "wb") as fh:
+            pickle.dump(out, fh)
+
+    st, _ = _child(history)
+    viols: list[dict] = []
+    if st != 0:
+        err = open(os.environ["VERIF_CHILD_ERR"]).read()[-500:] if os.path.exists(os.environ["VERIF_CHILD_ERR"]) else ""
+        viols.append(core.viol("a rerun in the process whose run was interrupted does not complete", None, case=ident, status=st, error=err))
+        return core.result(sig=core.sha(ident), nontrivial=True, violations=viols, counters=counters)
+    with open(os.path.join(root, "hist.pkl"), "rb") as fh:
+        out = pickle.load(fh)  # noqa: S301
+    if out["raised"]:
+        counters["runs_interrupted_in_a_process_that_ran_again"] = 1
+        if any(out["pid_in_names"] in n for n in out["left_behind"]):
+            counters["interrupted_run_left_its_own_temporary_file_behind"] = 1
+    for step in ("rerun", "third"):
+        if out[step] != expected:
+            viols.append(core.viol(f"run after an interrupted run differs from a cache-free run [{step}]", None, case=ident, got=str(out[step])[:300], expected=str(expected)[:300], left_behind=out["left_behind"]))
+            break
+    if not viols and _calls(calllog):
+        viols.append(core.viol("a run over a complete cache computed something", None, case=ident, computed=_calls(calllog)[:5]))
+    return core.result(sig=core.sha(ident), nontrivial=bool(out["raised"]), violations=viols[:2], counters=counters)
 
 
 def _calls(path: str) -> list[str]:
